@@ -27,12 +27,19 @@ ALLOWED_AXIOMS = []
 TRANSLATION = {
     "spec": {
         "module": "Gen_SimGenotype",
-        "classes": [("haptools/admix_storage.py", "HaplotypeSegment", 1)],
+        "classes": [("haptools/admix_storage.py", "HaplotypeSegment", 1),
+                    ("haptools/admix_storage.py", "GeneticMarker", 2)],
         "functions": [
             ("haptools/sim_genotype.py", "_find_coord"),
             ("haptools/sim_genotype.py", "_find_random_sample"),
             ("haptools/sim_genotype.py", "start_segment"),
             ("haptools/sim_genotype.py", "get_segment"),
+            # the per-child loop of _simulate: from `prev_chrom = chroms[0]` to just before `hap_samples.append(segments)`
+            ("haptools/sim_genotype.py", "_simulate", {
+                "name": "_simulate_child", "loop_target": "sample", "from_assign": "prev_chrom",
+                "until_append_to": "hap_samples", "result": "segments",
+                "params": ["chroms", "end_coords", "p_pop", "haps", "homolog", "true_coords", "prev_gen_samples",
+                           "segments"]}),
         ],
     },
     "models": ["TVM_C14"],   # definitions only: evaluation of the translated code (tv_kernel relation)
